@@ -531,9 +531,11 @@ func (s *scope) createInstance(descriptor *Descriptor) (any, error) {
 			}
 		}
 
-		// Find the primary service to return
+		// Find the primary service to return and the descriptor of every
+		// output. Nothing is stored until all of them are known to be valid, so
+		// that a failure leaves no partial state behind.
 		var primaryService any
-		var trackErr error
+		outputs := make([]constructorOutput, 0, len(registrations))
 		for _, reg := range registrations {
 			value := reg.Value
 
@@ -556,21 +558,15 @@ func (s *scope) createInstance(descriptor *Descriptor) (any, error) {
 				}
 			}
 
-			key := instanceKey{
-				Type:  reg.Type,
-				Key:   regKey,
-				Group: reg.Group,
-			}
-
-			// Keep going on error: every remaining output must still be
-			// handed to setInstance, which disposes it if the scope is closed
-			if err := s.setInstance(regDescriptor, key, value); err != nil && trackErr == nil {
-				trackErr = err
-			}
-		}
-
-		if trackErr != nil {
-			return nil, trackErr
+			outputs = append(outputs, constructorOutput{
+				descriptor: regDescriptor,
+				key: instanceKey{
+					Type:  reg.Type,
+					Key:   regKey,
+					Group: reg.Group,
+				},
+				value: value,
+			})
 		}
 
 		if primaryService == nil {
@@ -580,12 +576,16 @@ func (s *scope) createInstance(descriptor *Descriptor) (any, error) {
 			}
 		}
 
+		if err := s.storeOutputs(outputs); err != nil {
+			return nil, err
+		}
+
 		return primaryService, nil
 	}
 
 	// Handle multi-return constructors
 	if descriptor.MultiReturnIndex >= 0 {
-		var trackErr error
+		outputs := make([]constructorOutput, 0, len(info.Returns))
 		for _, ret := range info.Returns {
 			if ret.IsError {
 				continue
@@ -603,20 +603,19 @@ func (s *scope) createInstance(descriptor *Descriptor) (any, error) {
 				}
 			}
 
-			key := instanceKey{
-				Type:  ret.Type,
-				Key:   serviceDescriptor.Key,
-				Group: serviceDescriptor.Group,
-			}
-
-			// Keep going on error, see above
-			if err := s.setInstance(serviceDescriptor, key, value); err != nil && trackErr == nil {
-				trackErr = err
-			}
+			outputs = append(outputs, constructorOutput{
+				descriptor: serviceDescriptor,
+				key: instanceKey{
+					Type:  ret.Type,
+					Key:   serviceDescriptor.Key,
+					Group: serviceDescriptor.Group,
+				},
+				value: value,
+			})
 		}
 
-		if trackErr != nil {
-			return nil, trackErr
+		if err := s.storeOutputs(outputs); err != nil {
+			return nil, err
 		}
 
 		return results[descriptor.MultiReturnIndex].Interface(), nil
@@ -640,6 +639,29 @@ func (s *scope) createInstance(descriptor *Descriptor) (any, error) {
 		return nil, err
 	}
 	return instance, nil
+}
+
+// constructorOutput is one service produced by a single call of a
+// multi-output constructor (result object field or one of several returns).
+type constructorOutput struct {
+	descriptor *Descriptor
+	key        instanceKey
+	value      any
+}
+
+// storeOutputs hands every output of one constructor call to setInstance. It
+// keeps going on error: every output must reach setInstance, which tracks it
+// or - if the scope was closed meanwhile - disposes it. The first error is
+// reported.
+func (s *scope) storeOutputs(outputs []constructorOutput) error {
+	var firstErr error
+	for _, output := range outputs {
+		if err := s.setInstance(output.descriptor, output.key, output.value); err != nil && firstErr == nil {
+			firstErr = err
+		}
+	}
+
+	return firstErr
 }
 
 // FromContext retrieves a Scope from the context.
